@@ -270,7 +270,7 @@ func (g *gen) spliceCase() *vcase {
 		a.pushInt(near([]int{0, L}[g.r.Intn(2)])).op(opcode.RIGHT)
 	case 3: // CAT near MaxSize
 		total := 131070 + g.r.Intn(3) - 1
-		if g.r.Bool() {
+		if g.r.Intn(4) != 0 {
 			total = g.r.Intn(80)
 		}
 		l1 := g.r.Intn(total + 1)
@@ -314,7 +314,11 @@ func (g *gen) equalCase() *vcase {
 		op = opcode.NOTEQUAL
 	}
 	sub := newAsm()
-	switch g.r.Intn(8) {
+	sel := g.r.Intn(8)
+	if sel < 2 && g.r.Intn(4) != 0 {
+		sel = 3 + g.r.Intn(5) // the two big-string shapes are expensive: 1 in 4 of their share
+	}
+	switch sel {
 	case 0: // big byte strings around the limit
 		n := []int{65535, 65536, 65537}[g.r.Intn(3)]
 		m := []int{n, 65536, 1, 65537}[g.r.Intn(4)]
@@ -426,7 +430,7 @@ var seqStartPool = []arg{
 
 // seqCase: random sequence; `n` instructions after an initial stack.
 func (g *gen) seqCase(n int) *vcase {
-	c := &vcase{gas: 1 << 20, priced: true, family: "seq"}
+	c := &vcase{gas: genGas, priced: true, family: "seq"}
 	a := newAsm()
 	k := g.r.Intn(5)
 	for i := 0; i < k; i++ {
@@ -450,7 +454,7 @@ func (g *gen) seqCase(n int) *vcase {
 
 // exhaustive enumeration index -> sequence of exactly 3 reduced-set instructions on a start stack
 func exhaustiveSeq(idx int, start []arg) *vcase {
-	c := &vcase{gas: 1 << 20, priced: true, family: "seq3"}
+	c := &vcase{gas: genGas, priced: true, family: "seq3"}
 	a := newAsm()
 	n := len(seqOps)
 	for i := 0; i < 3; i++ {
@@ -465,3 +469,7 @@ func exhaustiveSeq(idx int, start []arg) *vcase {
 func describe(c *vcase) string {
 	return fmt.Sprintf("%s %x %v gas=%d", c.family, c.script, c.args, c.gas)
 }
+
+// genGas: gas limit of generated programs (a loop ends after ~20 000 cheap instructions);
+// the corpus keeps 2^20 for the cases that need depth (1024 nested calls).
+const genGas = 40000
